@@ -209,6 +209,7 @@ func (r *rs) psyncReply() {
 			c.Undecidedf("R5.reply", "SendPSyncContinue/keyword-"+kw, fn.Decl.Pos(), "no comparison with the keyword %q found", kw)
 		}
 	}
+	r.requestOffset(fn, g, offID)
 	// classify successful returns by the keyword edge they sit behind
 	nc, nf := 0, 0
 	for _, pt := range g.Points(func(m ast.Node) bool { ret, ok := m.(*ast.ReturnStmt); return ok && len(ret.Results) == 4 }) {
@@ -266,6 +267,177 @@ func swapCase(s string) string {
 		return strings.ToUpper(s)
 	}
 	return strings.ToLower(s)
+}
+
+// requestOffset: the offset written into the psync command, as a function of the offset handed in. The
+// caller holds every byte up to and including inOffset, so the stream must be requested from inOffset+1
+// for EVERY real offset (0 included); only the sentinel -1 ("nothing yet") is passed on unchanged. A
+// path-sensitive walk knows, per path, which values of inOffset can take it (the tests on it and on its
+// copies) and by which constant the value sent differs from it (assignments of the form v = w + k).
+func (r *rs) requestOffset(fn *core.Fn, g *cfgq.Graph, offID *ast.Ident) {
+	c := r.c
+	info := fn.Pkg.TypesInfo
+	key := "SendPSyncContinue/request-offset"
+	var sentCall *ast.CallExpr
+	for _, call := range flow.FindCalls(fn.Decl.Body, func(call *ast.CallExpr) bool {
+		f := core.CalleeFunc(info, call)
+		if f == nil || f.Name() != "NewCommand" || len(call.Args) < 3 {
+			return false
+		}
+		s, ok := core.StringConst(info, call.Args[0])
+		return ok && strings.ToLower(s) == "psync"
+	}) {
+		sentCall = call
+	}
+	in := core.ObjOf(info, offID)
+	if sentCall == nil || in == nil {
+		c.Undecidedf("R5.reply", key, fn.Decl.Pos(), "cannot find the psync command and its offset argument")
+		return
+	}
+	w := &flow.Sym{G: g}
+	init := flow.NewState()
+	inTok := w.Eval(offID, init).Tok
+	mark := func(o types.Object) string { return fmt.Sprintf("delta:%p", o) }
+	// delta of an expression relative to inOffset on this path (ok false: not of the form inOffset + k)
+	deltaOf := func(e ast.Expr, st *flow.SState) (int64, bool) {
+		f := lin.Of(info, unconv(info, e))
+		if len(f.Coef) == 0 {
+			// a constant c on a path whose tests pin inOffset to a constant c' is inOffset + (c - c') there
+			// (`if inOffset == -1 { offset = -1 }`)
+			if iv := st.IntervalOf(inTok); iv.Lo == iv.Hi {
+				return f.Const - iv.Lo, true
+			}
+			return 0, false
+		}
+		if len(f.Coef) != 1 {
+			return 0, false
+		}
+		var atom string
+		for a, cf := range f.Coef {
+			if cf != 1 {
+				return 0, false
+			}
+			atom = a
+		}
+		var base types.Object
+		core.Inspect(e, func(m ast.Node) bool {
+			if id, ok := m.(*ast.Ident); ok && base == nil && lin.Key(info, id) == atom {
+				if v, isVar := core.ObjOf(info, id).(*types.Var); isVar {
+					base = v
+				}
+			}
+			return base == nil
+		})
+		if base == nil {
+			return 0, false
+		}
+		if d, has := st.Marks[mark(base)]; has && d.Kind == flow.SInt {
+			return d.K + f.Const, true
+		}
+		if base == in {
+			if _, written := st.Marks[mark(in)]; !written {
+				return f.Const, true
+			}
+		}
+		return 0, false
+	}
+	type obs struct {
+		iv    flow.Interval
+		k     int64
+		known bool
+	}
+	var seen []obs
+	w.Visit = func(m ast.Node, st *flow.SState) bool {
+		for _, call := range cfgq.ExecCalls(m) {
+			if call == sentCall {
+				k, ok := deltaOf(call.Args[2], st)
+				seen = append(seen, obs{st.IntervalOf(inTok), k, ok})
+			}
+		}
+		set := func(l ast.Expr, k int64, ok bool) {
+			o := flow.Obj(info, l)
+			if o == nil {
+				return
+			}
+			if ok {
+				st.Marks[mark(o)] = flow.SVal{Kind: flow.SInt, K: k}
+			} else {
+				st.Marks[mark(o)] = flow.SVal{Tok: "unknown"}
+			}
+		}
+		switch x := m.(type) {
+		case *ast.AssignStmt:
+			switch {
+			case (x.Tok == token.ASSIGN || x.Tok == token.DEFINE) && len(x.Lhs) == len(x.Rhs):
+				type upd struct {
+					l  ast.Expr
+					k  int64
+					ok bool
+				}
+				var ups []upd
+				for i, l := range x.Lhs {
+					if b, isInt := info.TypeOf(l).Underlying().(*types.Basic); isInt && b.Info()&types.IsInteger != 0 {
+						k, ok := deltaOf(x.Rhs[i], st)
+						ups = append(ups, upd{l, k, ok})
+					}
+				}
+				for _, u := range ups {
+					set(u.l, u.k, u.ok)
+				}
+			case (x.Tok == token.ADD_ASSIGN || x.Tok == token.SUB_ASSIGN) && len(x.Lhs) == 1 && len(x.Rhs) == 1:
+				k0, ok0 := deltaOf(x.Lhs[0], st)
+				cst, isC := core.IntConst(info, x.Rhs[0])
+				if x.Tok == token.SUB_ASSIGN {
+					cst = -cst
+				}
+				set(x.Lhs[0], k0+cst, ok0 && isC)
+			default:
+				for _, l := range x.Lhs {
+					set(l, 0, false)
+				}
+			}
+		case *ast.IncDecStmt:
+			k0, ok0 := deltaOf(x.X, st)
+			if x.Tok == token.DEC {
+				set(x.X, k0-1, ok0)
+			} else {
+				set(x.X, k0+1, ok0)
+			}
+		}
+		return false
+	}
+	w.Run(init)
+	if w.Overflow || len(seen) == 0 {
+		c.Undecidedf("R5.reply", key, sentCall.Pos(), "cannot enumerate the paths to the psync command")
+		return
+	}
+	bad, und := "", false
+	for _, o := range seen {
+		real := o.iv.Hi >= 0                       // some real offset (>= 0) takes this path
+		sentinel := o.iv.Lo <= -1 && o.iv.Hi >= -1 // the sentinel -1 takes it
+		switch {
+		case !o.known:
+			if real || sentinel {
+				und = true
+			}
+		case real && o.k != 1:
+			lo := o.iv.Lo
+			if lo < 0 {
+				lo = 0
+			}
+			bad = fmt.Sprintf("for an offset of %d the command asks for the stream from offset%+d", lo, o.k)
+		case sentinel && !real && o.k != 0:
+			bad = fmt.Sprintf("the sentinel -1 is sent as %d", -1+o.k)
+		}
+	}
+	switch {
+	case bad != "":
+		c.Failf("R5.reply", key, sentCall.Pos(), "%s; the caller holds every byte up to its offset, so PSYNC must ask for offset+1 for every real offset (0 included) and pass only -1 on unchanged: asking for a byte the source no longer has (or has already sent) makes it answer with a full resync, or shifts every later offset by one", bad)
+	case und:
+		c.Undecidedf("R5.reply", key, sentCall.Pos(), "the offset written into the psync command is not of the form inOffset + constant on every path")
+	default:
+		c.Okf("R5.reply", key, sentCall.Pos(), "the command asks for offset+1 for every offset >= 0 and passes -1 on unchanged")
+	}
 }
 
 // continueReturn: `return runid, offset - k, nil, nil` with runid = InRunid, offset = inOffset (+k when != -1).
